@@ -161,6 +161,14 @@ def ctxJ : Option (Nat × Level) → Json
   | none => Json.null
   | some (u, l) => Json.arr #[toJson u, toJson l]
 
+def ctxJ3 : Option (Nat × Level × String) → Json
+  | none => Json.null
+  | some (u, l, _) => Json.arr #[toJson u, toJson l]
+
+def ctxType : Option (Nat × Level × String) → Json
+  | none => Json.null
+  | some (_, _, t) => toJson t
+
 def runCase (j : Json) : Except String Json := do
   let env ← parseEnv (← j.getObjVal? "env")
   let prog ← parseBlock (← j.getObjVal? "prog")
@@ -170,7 +178,9 @@ def runCase (j : Json) : Except String Json := do
     ("offered", Json.arr (w.offered.map fun (d, m) => Json.arr #[toJson d, msgJ m]).toArray),
     ("accepted", Json.arr (w.accepted.map fun (d, m) => Json.arr #[toJson d, msgJ m]).toArray),
     ("outcome", outcomeJ r.2),
-    ("probes", Json.arr (w.probes.map fun (n, c) => Json.arr #[toJson n, ctxJ c]).toArray),
+    ("probes", Json.arr (w.probes.map fun (n, c) => Json.arr #[toJson n, ctxJ3 c]).toArray),
+    ("probeTypes", Json.arr (w.probes.map fun (n, c) => Json.arr #[toJson n, ctxType c]).toArray),
+    ("ctxType", match w.ctx.bind fun h => (w.acts[h]?).map fun a => a.atype with | none => Json.null | some t => toJson t),
     ("ctx", ctxJ (w.ctx.bind fun h => (w.acts[h]?).map fun a => (a.uuid, a.level))),
     ("buffer", toJson w.buffer.length),
     ("stage", toJson w.stage.length)])
